@@ -196,6 +196,7 @@ def main(argv=None):
     ap.add_argument("--replay")
     ap.add_argument("--jobs", type=int, default=16)
     args = ap.parse_args(argv)
+    os.environ["HEXVC_TIER"] = args.tier
     from hexvc import report
 
     try:
